@@ -11,6 +11,12 @@ CLAIMED = {
  "C15": ("stateless schedule exploration of the real ring buffer, all interleavings, deadlock/lost-wake-up detection on every terminal state",
          "Every interleaving of one producer call, one consumer call and up to two closers (Close once or twice) from empty/partial/full/wrapped states on the real service.buffer; on every terminal state: no thread parked, both internal mutexes free, and a battery of later calls returns.",
          "Bounded to one call in progress per side plus feed/drain; sequentially consistent interleavings at lock/cond/atomic granularity.", "DESIGN §5 C15"),
+ "C03": ("bounded-exhaustive enumeration of message-API field products, accepted byte strings and packet-id counter histories against an independent reference codec",
+         "Every combination of boundary values of every field of all 14 packet types built through the message API (lengths 0/1/127/128/16383/16384/65535, remaining lengths at each varint boundary, all flag combinations, 1..1000 topics, explicit and automatic packet ids around the counter wrap), every exact-frame byte string up to 6/7 bytes over an 8-value alphabet that a decoder accepts, and 2 x 131080 consecutive automatically numbered encodes per type; each compared byte for byte with a reference codec written from the specification.",
+         "Field values outside the boundary alphabets and payload contents are not varied (nothing in the codec branches on them); remaining lengths of 256 MiB are not materialised. The reference codec is trusted.", "DESIGN §5 C03"),
+ "C04": ("bounded-exhaustive enumeration of byte strings with deviation bound 2 (truncations, 1- and 2-byte corruptions of a valid corpus) fed to all 14 decoders in exact-capacity slices",
+         "All byte strings up to 6/7 bytes over an 8-value alphabet with 30 first bytes for each of the 14 decoders, and for a corpus of valid packets of every structural shape: every truncation, every single-byte replacement by 9 values at every position, trailing bytes, every other decoder, and (thorough) every pair of replacements within the first 24 bytes; input slices have cap == len so that any read past the end panics; oracle: no panic, 0 <= n <= len, returned fields inside input[:n], agreement with the reference codec on every well-formed packet.",
+         "Byte values outside the alphabets and corruptions of more than two bytes are not explored. Non-minimal remaining-length encodings are not counted as well-formed.", "DESIGN §5 C04"),
 }
 
 NOT_YET = "check not built yet in this session; planned per DESIGN.md §5 (same engine)"
